@@ -178,6 +178,13 @@ def gen_cases(rng, tier):
         for cl, ctx in CONTEXTS:
             cases.append({"kind": "hostile" if refused else "benign", "shape": label, "ctx": cl,
                           "src": ctx.replace("{H}", "(" + src + ")"), "refused": refused})
+    # the benign shapes once more on a GROUPED record (fields resolve through the group's members)
+    for label, src, refused in BENIGN:
+        if label.startswith("ok:self") or "fields" in label:
+            continue
+        cases.append({"kind": "benign", "shape": label, "ctx": "bare", "src": "(" + src + ")", "refused": refused, "grouped": True})
+        cases.append({"kind": "benign", "shape": label, "ctx": "and", "src": "(" + src + ") and r.extra == 'e'", "refused": refused,
+                      "grouped": True})
     # seeded deeper nestings: contexts composed 2-3 deep around a random shape
     n = {"quick": 300, "thorough": 6000, "search": 2500}[tier]
     r = rng.fork("deep")
@@ -333,7 +340,13 @@ def run_real(case):
     src = case["src"].replace("{TRIP}", trip)
     log, helper_log = [], []
     rec = _record(log, trip)
-    before = _snapshot(rec)
+    inner = rec
+    if case.get("grouped"):
+        # the same record as first member of a grouped record: reading fields through the group leaves group and member alone
+        from flow.record import GroupedRecord, RecordDescriptor
+        other = RecordDescriptor("t/c09b", [("string", "extra"), ("varint", "n")])(extra="e", n=9)
+        rec = GroupedRecord("grp/c09", [inner, other])
+    before = [_snapshot(inner), sorted(getattr(rec, "__dict__", {}))]
 
     def wrap(fn):
         def w(*a, **k):
@@ -364,7 +377,7 @@ def run_real(case):
     res["effects"] = [ev for ev in log if ev[0] in ("str", "repr", "iter", "strmethod")]
     res["helpers"] = helper_log
     res["tripwire"] = os.path.exists(trip)
-    res["record_changed"] = _snapshot(rec) != before
+    res["record_changed"] = [_snapshot(inner), sorted(getattr(rec, "__dict__", {}))] != before
     try:
         if os.path.exists(trip):
             os.remove(trip)
@@ -408,7 +421,7 @@ def oracle(case, obs):
 
 
 def model_op(case, obs):
-    if obs.get("syntax_error"):
+    if obs.get("syntax_error") or case.get("grouped"):
         return None
     return {"op": "sel_eval", "engine": "interpreted", "expr": SA.expr_json(case["src"].replace("{TRIP}", "/nonexistent/t")),
             "record": MODEL_RECORD}
